@@ -297,7 +297,7 @@ func (h *handler1) handleClientPublish(ctx context.Context, snPublish *snPkts1.P
 		return fmt.Errorf("zero MsgID in QoS %d packet: %v", mqPublish.Qos, snPublish)
 	}
 	if snPublish.QOS == 1 {
-		h.transactions.Store(msgID, newClientPublishQOS1Transaction(ctx, h, msgID, snPublish.TopicID))
+		h.storeTransaction(msgID, newClientPublishQOS1Transaction(ctx, h, msgID, snPublish.TopicID))
 	}
 	mqPublish.TopicName = topic
 	mqPublish.Payload = snPublish.Data
@@ -745,11 +745,19 @@ func (h *handler1) handleSubscribe(ctx context.Context, snSubscribe *snPkts1.Sub
 	}
 
 	msgID := snSubscribe.MessageID()
+	if oldTransactionx, ok := h.transactions.Get(msgID); ok {
+		// A retransmitted SUBSCRIBE: the TopicID was registered because of
+		// the original one.
+		oldTransaction, ok := oldTransactionx.(*subscribeTransaction)
+		if ok && oldTransaction.newTopicID && oldTransaction.topicID == topicID {
+			newTopicID = true
+		}
+	}
 	transaction := newSubscribeTransaction(ctx, h, msgID, topicID, newTopicID)
 	if pendingRegistration {
 		transaction.pendingTopic = topic
 	}
-	h.transactions.Store(msgID, transaction)
+	h.storeTransaction(msgID, transaction)
 
 	mqSubscribe := mqPkts.NewControlPacket(mqPkts.Subscribe).(*mqPkts.SubscribePacket)
 	mqSubscribe.MessageID = snSubscribe.MessageID()
@@ -759,6 +767,17 @@ func (h *handler1) handleSubscribe(ctx context.Context, snSubscribe *snPkts1.Sub
 	mqSubscribe.Qoss = []byte{snSubscribe.QOS}
 	mqSubscribe.Topics = []string{topic}
 	return h.mqttSend(mqSubscribe)
+}
+
+// storeTransaction stores a transaction started by the client. A transaction
+// which is still stored under the same MsgID (the client has retransmitted the
+// packet, or it has given up and uses the MsgID again) is cancelled first:
+// its timer would delete the new transaction when it fires.
+func (h *handler1) storeTransaction(msgID uint16, transaction transactions.Transaction) {
+	if oldTransaction, ok := h.transactions.Get(msgID); ok {
+		oldTransaction.Fail(Cancelled)
+	}
+	h.transactions.Store(msgID, transaction)
 }
 
 func (h *handler1) handleUnsubscribe(snUnsubscribe *snPkts1.Unsubscribe) error {
